@@ -329,6 +329,14 @@ let run mode (line : string) : string =
      | _ -> failwith "lex")
   | "batch" -> run_batch x
   | "lsp" -> run_lsp x
+  | "xml_out" -> Drv_xml.run "out" line
+  | "xml_rt" -> Drv_xml.run "rt" line
+  | "xml_tree" -> Drv_xml.run "tree" line
+  | "shape_prog" -> Drv_shape.run "prog" x
+  | "shape_pair" -> Drv_shape.run "pair" x
+  | "shape_letnamed" -> Drv_shape.run "letnamed" x
+  | "shape_narrow" -> Drv_shape.run "narrow" x
+  | "shape_derive" -> Drv_shape.run "derive" x
   | "zdec" -> (match x with A s -> string_of_z (z_of_string s) | _ -> failwith "zdec")
   | _ -> failwith ("mode " ^ mode)
 
